@@ -105,6 +105,24 @@ def eval_table(rec):
         row["cvals"] = cvals
         if row["ok"] and row["x"] is not None:
             row["v"], row["slack"] = truth.true_maxcv(b, row["x"], cvals, cons)
+            # The solver evaluates the linear constraints at its internal
+            # point; when that point lies outside the box by a rounding-level
+            # excess e (relative to the size of its operands, judged by C01)
+            # it is projected before the user functions see it, and the
+            # linear residuals at the two points differ by up to |A| e.
+            pb = ev["pb"]
+            if cons and pb.bounds.is_feasible and \
+                    ev["x"].shape == pb.bounds.xl.shape:
+                with np.errstate(invalid="ignore"):
+                    exc = np.maximum(np.maximum(pb.bounds.xl - ev["x"],
+                                                ev["x"] - pb.bounds.xu), 0.0)
+                if np.any(exc > 0):
+                    add = 0.0
+                    for a in (pb.linear.a_ub, pb.linear.a_eq):
+                        if a.shape[0]:
+                            add = max(add, float(np.max(np.abs(a) @ exc)))
+                    row["slack"] = row["slack"] + 2.0 * add
+                    row["projected_by"] = float(np.max(exc))
         out.append(row)
     return out
 
@@ -157,9 +175,13 @@ def o_c01(rec):
                 np.abs(x), np.maximum(np.where(np.isfinite(xl), np.abs(xl), 0),
                                       np.where(np.isfinite(xu), np.abs(xu), 0))))
             xb = ev.get("x_best")
-            if xb is not None and xb.shape == x.shape:
+            # the subsolvers rotate / project whole vectors: a component
+            # carries an absolute error of order eps*|step|, not eps*|s_i|
+            if x.size:
+                tol = np.maximum(tol, 64.0 * EPS * float(np.max(np.abs(x))))
+            if xb is not None and xb.shape == x.shape and x.size:
                 # x = x_best + step: rounding relative to the operands
-                tol = np.maximum(tol, 64.0 * EPS * np.abs(xb))
+                tol = np.maximum(tol, 64.0 * EPS * float(np.max(np.abs(xb))))
                 # an excess the centre already carries (it was judged, with
                 # the scale of ITS operands, when that point was generated)
                 # is inherited, not newly produced: the trial point must not
@@ -224,6 +246,8 @@ def o_c02(rec):
     mv = float(res.maxcv)
     rows = [r for r in eval_table(rec) if r["ok"] and r["x"] is not None
             and r["x"].tobytes() == x.tobytes() and feq(r["f"], res.fun)]
+    if rows:
+        slack = max(slack, max(r["slack"] for r in rows))
     for r in rows:
         if r["v"] is not None and (feq(mv, r["v"]) or (
                 math.isfinite(mv) and math.isfinite(r["v"]) and
